@@ -275,6 +275,16 @@ theorem handleProcessorError_keepsI (cfg : Cfg) (f : Fail) (s : St) : KeepsI cfg
   · exact KeepsI.refl cfg s
   · exact startErrback_keepsI cfg f s
 
+/-! ### Buffer growth (`C14.grStep`) -/
+
+/-- the model's growth function (constants extracted from the source) is the rule the property states -/
+theorem grow_eq_spec (b : Nat) (mx : Option Nat) : grow b mx = C14.growSpec b mx := by
+  unfold grow C14.growSpec
+  simp only [growSmall_eq, growLarge_eq, growThreshold_eq]
+  cases mx with
+  | none => simp only []; split <;> rfl
+  | some m => simp only []; split <;> (try split) <;> rfl
+
 /-! ### Every delivered message was carried by a fetch reply (`C02.payStep`) -/
 
 /-- the messages the processing loop is about to deliver have all been seen in fetch replies -/
